@@ -30,7 +30,7 @@ def run(pid, tier, seed):
         tps.append(tp)
 
     def gen():
-        return vlib.generate_and_replay("IprSeqMC", pid, {"MaxLen": 4 if q else 8}, exe, ("replay",), ["Sane"], (), 2, 1200)
+        return vlib.generate_and_replay("IprSeqMC", pid, {"MaxLen": 6 if q else 8}, exe, ("replay",), ["Sane"], (), 2, 1200)
 
     with ThreadPoolExecutor(max_workers=4) as ex:
         gf = ex.submit(gen)
